@@ -340,7 +340,10 @@ class IPPO(MultiAgentRLAlgorithm):
         """
         # Get dict of form {"agent_id" : [1, 0, 0, 0]...} etc
         action_masks = {homo_id: [] for homo_id in self.shared_agent_ids}
-        for agent_id, info in infos.items():
+        # Masks of a group are stacked in the order of self.agent_ids (the order in which
+        # the group's observations are batched), not in the order of the dictionary
+        for agent_id in sorted(infos.keys(), key=self._agent_position):
+            info = infos[agent_id]
             if isinstance(info, dict):
                 homo_id = self.get_homo_id(agent_id)
                 action_masks[homo_id].append(
